@@ -40,6 +40,8 @@ PLACEMENTS = [
     ("pen", 0.2),        # 16 supporting planes along u interpenetrate by 0.2*min(size)
     ("pen", 0.02),       # 17
     ("pen", 0.5),        # 18
+    ("pen", 1e-6),       # 19 very shallow interpenetration (below the 1e-6 bias of EPA's winding test)
+    ("pen", 1e-7),       # 20
 ]
 N_PL = 16
 
